@@ -107,6 +107,13 @@ CHECKS = {
             'and a match binding each placeholder to what it replaced',
             'Every (program, derived pattern) pair in the bounded space is executed; a derived pattern that fails to match '
             'or no match with the original bindings is a violation.', '2/C11'),
+    'C10': ('bounded-exhaustive (program, pattern) pairs on the real find_matches: all sequences of <=2 (3 in thorough) statements '
+            'over 30 statements x an independent 51-pattern alphabet (concrete, ___, repeated _var_, __expr__, multi-statement, '
+            'falsy literals); and programs x every derived pattern mutated by one concrete edit whose content is absent; oracle: '
+            'an independent reference checker that searches a witness of the embedding relation for every returned match, and '
+            '"no match" for mutated patterns',
+            'Every pair in the bounded space is executed and every returned match validated by an exhaustive witness search '
+            'written from the property statement; a match without witness, or a match of absent content, is a violation.', '2/C10'),
 }
 
 PENDING = ['C02', 'C03', 'C04', 'C05', 'C06', 'C07', 'C08', 'C09', 'C10', 'C11', 'C12', 'C13', 'C14', 'C15',
